@@ -13,9 +13,12 @@ MANIFEST = {
  'technique': 'Lean 4 proof (induction over operation sequences with invariants) + table extraction + differential correspondence',
  'design_ref': 'DESIGN.md §6 C19',
 }
-THEOREMS = ['C19.tables_ok', 'C19.conservation', 'C19.conservation_life', 'C19.queueMsg_refused_iff',
-            'C19.queueMsg_refused_state', 'C19.queueMsg_accepted', 'C19.priority', 'C19.fast_first', 'C19.fifo',
-            'C19.fifo_run', 'C19.quit_drains']
+THEOREMS = ['C19.tables_ok', 'C19.classes_ok', 'C19.conservation', 'C19.conservation_life', 'C19.conservation_partial',
+            'C19.conservation_full_counterexample', 'C19.queueMsg_refused_iff', 'C19.queueMsg_refused_state',
+            'C19.queueMsg_accepted', 'C19.priority', 'C19.fast_first', 'C19.fifo', 'C19.fifo_run',
+            'C19.rates', 'C19.throttle_join_rate', 'C19.throttle_join_rate_fixed', 'C19.quit_drains',
+            'C19.takeMsg_recursive', 'C19.filter_no_stall_fast', 'C19.filter_no_stall_queue',
+            'C19.lost_only_tagged', 'C19.tagged_were_sent']
 TRUSTED = ['Lean 4.33.0 kernel; axioms ⊆ {propext, Classical.choice, Quot.sound}',
            'harness/extractors/ircqueue.py (_high, _low, rate-limited command, echo-emulated commands → Gen/IrcQueue.lean)',
            'harness/c19.py generators, instrumentation (virtual clock, stub driver, recording outFilter callbacks), canonicalisation; hex line protocol',
@@ -30,6 +33,9 @@ ASSUMPTIONS = ['Python asserts enabled', 'integer-valued clock, non-negative int
                'die() before afterConnect closes at once (by design; stated as hypothesis of quit_drains)']
 
 FINDING_REUSED = 'C19-reused-object-lost'
+URGENT = ('PONG', 'MODE', 'KICK', 'NICK', 'PASS')
+BULK = ('PRIVMSG', 'NOTICE', 'JOIN', 'WHO', 'PING')
+PLAIN = ('QUIT', 'PART', 'TOPIC', 'CAP')
 
 # ------------------------------------------------------------------------------------------
 # implementation side
@@ -149,6 +155,10 @@ class Impl(object):
         self.fails.append((self.opi, msg, finding))
 
     def klass(self, m):
+        # the statement's own notion for the core commands, the implementation's tables otherwise
+        if m.command in URGENT: return 0
+        if m.command in BULK: return 2
+        if m.command in PLAIN: return 1
         irclib = self.b.irclib
         return 0 if m.command in irclib._high else (2 if m.command in irclib._low else 1)
 
@@ -339,19 +349,20 @@ class Impl(object):
                 fast = True
             else:
                 fast = False
-                cls = [c for c in (h, n, l) if c]
-                if not any(src is x for x in h + n + l):
+                regular = h + n + l
+                if not any(src is x for x in regular):
                     self.fail('takeMsg processed %s which was not queued' % self.ser(src))
                 else:
-                    best = cls[0]
-                    if not any(src is x for x in best):
+                    mine = self.klass(src)
+                    more_urgent = [x for x in regular if self.klass(x) < mine]
+                    if more_urgent:
                         self.fail('takeMsg released %s (class %d) while a message of a more urgent class is queued: %s'
-                                  % (self.ser(src), self.klass(src), self.ser(best[0])))
+                                  % (self.ser(src), mine, self.ser(more_urgent[0])))
                     else:
                         myseq = self.first_seq(src)
-                        for x in best:
-                            if x is src:
-                                break
+                        for x in regular:
+                            if x is src or self.klass(x) != mine:
+                                continue
                             if x.command != 'JOIN' and self.first_seq(x) is not None and myseq is not None and self.first_seq(x) < myseq:
                                 self.fail('first-in-first-out broken: %s released before the earlier %s of the same class'
                                           % (self.ser(src), self.ser(x)))
@@ -499,11 +510,21 @@ def gen_cfg(r):
     return ['cfg', r.choice([0, 0, 1, 2, 5]), r.choice([0, 0, 3, 10]), r.random() < 0.4, r.random() < 0.8, r.choice([5, 30, 120])]
 
 def gen_ops(r, maxlen=60, reuse=False):
-    ops = [gen_cfg(r), ['filters', gen_rules(r)], ['new', 1000 + r.randint(0, 50)]]
+    profile = r.choice(['mixed', 'mixed', 'join', 'quit', 'filter', 'ping'])
+    cfg = gen_cfg(r)
+    rules = gen_rules(r)
+    if profile == 'join':
+        cfg[2] = r.choice([2, 3, 5, 10]); cfg[1] = r.choice([0, 1, 2])
+    elif profile == 'filter':
+        rules = gen_rules(r) or [['drop', r.choice(LOW + NORMAL), 'X']]
+    elif profile == 'ping':
+        cfg[4] = True; cfg[5] = r.choice([5, 30])
+    ops = [cfg, ['filters', rules], ['new', 1000 + r.randint(0, 50)]]
     n = r.randint(3, maxlen)
     serial = 0
     nmsgs = 0
-    if r.random() < 0.85:
+    p_die = {'quit': 0.03, 'mixed': 0.012}.get(profile, 0.004)
+    if r.random() < 0.9:
         pos = r.randint(0, 4)
     else:
         pos = None
@@ -516,18 +537,27 @@ def gen_ops(r, maxlen=60, reuse=False):
                 s = r.randrange(serial)
                 ops.append(['queue', s, None])
             else:
-                ops.append(['queue', serial, gen_content(r)]); serial += 1
+                c = gen_content(r)
+                if profile == 'join' and r.random() < 0.5:
+                    c = ['', 'JOIN', [r.choice(['#a', '#b', '#c', '#d'])]]
+                ops.append(['queue', serial, c]); serial += 1
             nmsgs += 1
         elif x < 0.47:
             ops.append(['send', serial, gen_content(r)]); serial += 1; nmsgs += 1
         elif x < 0.72:
             ops.append(['take'])
         elif x < 0.88:
-            ops.append(['tick', r.choice([0, 1, 1, 2, 3, 6, 11, r.randint(20, 200)])])
-        elif x < 0.90:
+            if profile == 'ping':
+                ops.append(['tick', r.choice([1, 3, 6, 11, 31, 40, 130])])
+            elif profile == 'join':
+                ops.append(['tick', r.choice([0, 1, 1, 2, 2, 3, 4])])
+                ops.append(['take'])
+            else:
+                ops.append(['tick', r.choice([0, 1, 1, 2, 3, 6, 11, r.randint(20, 200)])])
+        elif x < 0.88 + p_die:
             ops.append(['die'])
         elif x < 0.915:
-            ops.append(['reset'])
+            ops.append(['reset'] if r.random() < 0.4 else ['take'])
         elif x < 0.94:
             ops.append(['pong'])
         elif x < 0.955:
@@ -698,7 +728,7 @@ def run(ctx):
     if ctx.thorough:
         n, n_reuse, maxlen = 60000, 3000, 90
     else:
-        n, n_reuse, maxlen = 2600, 150, 60
+        n, n_reuse, maxlen = 5200, 300, 60
     cases, lines, spans = explore('c19', n, n_reuse, maxlen, load_corpus())
     status, wcase = reuse_witness_status()
     if build.driver_ok:
